@@ -8,6 +8,8 @@ from typing import Any, Dict, Iterable, List, Optional, Tuple
 from ..core import Prop
 
 MACROS = ("map", "filter", "all", "exists", "exists_one")
+WRAPPERS = ("google.protobuf.Int32Value", "google.protobuf.UInt64Value", "google.protobuf.DoubleValue", "google.protobuf.BoolValue",
+            "google.protobuf.BytesValue", "google.protobuf.StringValue", "google.protobuf.ListValue", "google.protobuf.Struct")
 NOT_METHODS = MACROS + ("reduce", "min", "has", "dyn")     # `e.map(…)` is a macro even though `map` is also a function
 REL = {"<": "_<_", "<=": "_<=_", ">": "_>_", ">=": "_>=_", "==": "_==_", "!=": "_!=_", "in": "_in_"}
 ADD = {"+": "_+_", "-": "_-_"}
@@ -312,9 +314,14 @@ def d1_build(R: Rt, c: Dict[str, Any]):
         return f"{T[0]}{{}}", b, line("objectNew0", out, f"obj 0 {K[0]}")
     if shape == "obj":
         v = Vv[0]
-        msg = ct.MessageType({ct.StringType("f"): Vv[1]})
+        msg = ct.MessageType({ct.StringType("value"): Vv[1]})
         out = "ok" if K[0] == "e" else outcome(R, lambda: v(msg))
-        return f"{T[0]}{{f: {T[1]}}}", b, line("objectNew", out, f"obj 1 {K[0]} {K[1]}")
+        return f"{T[0]}{{value: {T[1]}}}", b, line("objectNew", out, f"obj 1 {K[0]} {K[1]}")
+    if shape == "objw":
+        # a well-known wrapper type (an annotation of the Environment) applied to a message with a `value` field
+        cls = R.celpy.googleapis[x]
+        msg = ct.MessageType({ct.StringType("value"): Vv[0]})
+        return f"{x}{{value: {T[0]}}}", b, line("objectNew", outcome(R, lambda: cls(msg)), f"obj 1 v {K[0]}")
     if shape == "ident":
         present = c.get("present", True)
         bb = dict(b) if present else {}
@@ -622,6 +629,8 @@ class C04(Prop):
             for f in ("a", "value"):
                 add(dict(shape="dot", ops=[a], x=f))
             add(dict(shape="min", ops=[a]))
+            for w in WRAPPERS:
+                add(dict(shape="objw", ops=[a], x=w), 0.3)
             add(dict(shape="obj0", ops=[a]))
             if not quick or a in reps:
                 for m in MACROS:
@@ -882,7 +891,10 @@ class C04(Prop):
                 elif n == "objectNew0":
                     out = [dict(shape="obj0", ops=[a]) for a in names(key[1])]
                 elif n == "objectNew":
-                    out = [dict(shape="obj", ops=[a, b]) for a in names(key[1]) for b in ("i1", "s_a")]
+                    vk = key[2][6:] if key[2].startswith("value:") else None
+                    vals = names(vk) if vk else ["i1", "s_a"]
+                    out = [dict(shape="obj", ops=[a, b]) for a in names(key[1]) for b in vals]
+                    out += [dict(shape="objw", ops=[b], x=w) for w in WRAPPERS for b in vals]
                 elif n == "mapLit":
                     ks = key[1:]
                     if len(ks) == 1:
